@@ -244,7 +244,7 @@ func (s *Scenario) Text(i int) string {
 		}
 		if n.On {
 			mod += " on (" + strings.Join(n.ML, ", ") + ")"
-		} else if len(n.ML) > 0 {
+		} else if len(n.ML) > 0 || n.Card == "N:1" || n.Card == "1:N" {
 			mod += " ignoring (" + strings.Join(n.ML, ", ") + ")"
 		}
 		switch n.Card {
